@@ -448,6 +448,20 @@ fn used_type_params<'ty, 'out>(
                 }
             }
         }
+        // A projection of a type parameter such as `<T as TS>::OptionInnerType` (the type of a
+        // field `r: T` under `#[ts(optional_fields)]`): no impl normalizes it, so the projection
+        // itself needs the bound. (A projection of `Vec<T>` is normalized through the impl of
+        // `Vec<T>`; giving it a bound of its own would hide that impl.)
+        Type::Path(TypePath {
+            qself: Some(qself), ..
+        }) => {
+            if let Type::Path(TypePath { qself: None, path }) = &*qself.ty {
+                if is_type_param(&path.segments.first().unwrap().ident) {
+                    out.insert(&qself.ty);
+                    out.insert(ty);
+                }
+            }
+        }
         _ => (),
     }
 }
